@@ -321,6 +321,7 @@ def run(ctx, F, rule="E-RAW"):
     check_remove_successor(ctx, F)
     check_remove_wraps(ctx, F)
     check_probe_exits(ctx, F)
+    check_rehash(ctx, F)
 
 
 def check_slot_clone(ctx, F, rule="E-RAW.clone"):
@@ -516,3 +517,123 @@ def check_remove_wraps(ctx, F, rule="E-RAW.succ.wrap"):
                             "entry in the last slot is always freed, cutting a probe chain that continues at slot 0"
                             % (" (a default is substituted when slot + 1 is out of bounds)" if defaults else "")))
     return 1
+
+
+def check_rehash(ctx, F, rule="E-RAW.rehash"):
+    """`reserve()` calls `reserve_rehash` when fewer FREE slots are left than required; afterwards lookups rely on a
+    FREE slot existing.  Tombstones are only turned back into FREE slots by rebuilding the slot array, so
+      rebuild   every path through `reserve_rehash` replaces the slot array (a same-size rehash is what purges
+                tombstones: there is no early return);
+      count     the counter assigned after the rebuild is `new_cap - len` with the very `new_cap` the new array was
+                sized with;
+      step      the re-insertion probe (and the probes of `find` / `find_or_find_insert_slot`) advance by
+                `(index + 1) & mask`: a different stride skips slots, so the element lands outside the chain a lookup
+                walks."""
+    from efreelist import origins
+    n = 0
+    fids = [f for f in F.mir if f.startswith("linear_hashtbl::raw::") and f.endswith("::reserve_rehash")]
+    if not ctx.anchor(rule, "RawTable::reserve_rehash", len(fids) == 1):
+        return 0
+    fid = fids[0]
+    m = F.mir[fid]
+    B = cfg.Body(m)
+    repl = [i for i, t in B.calls() if re.search(r"mem::(replace|take|swap)$", cfg.callee_name(t) or "")]
+    exits = [e for e in B.exits() if not m["blocks"][e]["c"]]
+    reach = B.reachable_from(0, avoid=set(repl)) if repl else set(B.reach)
+    skip = [e for e in exits if e in reach]
+    n += 1
+    ctx.ob(rule + ".rebuild", rule + ".rebuild:reserve_rehash", bool(repl) and not skip,
+           "%s (%s): %s" % (short(F, fid), F.where(fid),
+                            "every path rebuilds the slot array" if repl and not skip else
+                            "a path returns without rebuilding the slot array: tombstones are never purged, the FREE-slot reserve "
+                            "that reserve() promises is not restored and a lookup of an absent key does not terminate"))
+    # count: free = new_cap - len
+    cap_calls = [i for i, t in B.calls() if (cfg.callee_name(t) or "").endswith("::next_capacity")]
+    ok_count = False
+    detail = "no assignment `free = new_cap - len` found"
+    for i, kind in free_writes(m, B):
+        pass
+    for i in sorted(B.reach):
+        b = m["blocks"][i]
+        if b["c"]:
+            continue
+        for s in b["s"]:
+            if "lhs" in s and is_field(s["lhs"], "free", RT):
+                rv = s.get("rv") or {}
+                src = rv
+                if rv.get("k") == "use":
+                    # find the defining statement of the moved temp
+                    p = cfg.op_place(rv.get("op"))
+                    pl = p if isinstance(p, int) else (p or {}).get("l")
+                    for j in sorted(B.reach):
+                        for s2 in m["blocks"][j]["s"]:
+                            if s2.get("lhs") == pl and (s2.get("rv") or {}).get("k") in ("bin", "checked"):
+                                src = s2["rv"]
+                            elif isinstance(s2.get("lhs"), int) and s2.get("lhs") == pl and (s2.get("rv") or {}).get("k") == "use":
+                                q = cfg.op_place(s2["rv"].get("op"))
+                                ql = q if isinstance(q, int) else (q or {}).get("l")
+                                for k in sorted(B.reach):
+                                    for s3 in m["blocks"][k]["s"]:
+                                        if s3.get("lhs") == ql and (s3.get("rv") or {}).get("k") in ("bin", "checked"):
+                                            src = s3["rv"]
+                if src.get("k") in ("bin", "checked") and str(src.get("o", "")).startswith("Sub"):
+                    oa = origins(B, m, [src.get("a")])
+                    from_cap = any(o[0] == "call" and o[2] in cap_calls for o in oa)
+                    b_len = "len" in str(src.get("b"))
+                    if not b_len:
+                        # operand b copied from self.len through a temp
+                        q = cfg.op_place(src.get("b"))
+                        ql = q if isinstance(q, int) else (q or {}).get("l")
+                        for k in sorted(B.reach):
+                            for s3 in m["blocks"][k]["s"]:
+                                if s3.get("lhs") == ql and "len" in str((s3.get("rv") or {}).get("op")):
+                                    b_len = True
+                    if from_cap and b_len:
+                        ok_count = True
+                    else:
+                        detail = "free is assigned a difference that is not `new_cap - self.len`"
+                elif cfg.const_int(rv.get("op")) == 0:
+                    pass    # `free = 0` for the empty table
+                else:
+                    detail = "free is assigned something other than `new_cap - self.len`"
+                    ok_count = ok_count and False
+    n += 1
+    ctx.ob(rule + ".count", rule + ".count:reserve_rehash", ok_count,
+           "%s (%s): %s" % (short(F, fid), F.where(fid), "free = new_cap - len after the rebuild" if ok_count else detail))
+    # step: (index + 1) & mask in every probe loop
+    for nm in ("reserve_rehash", "find", "find_or_find_insert_slot"):
+        fs = [f for f in F.mir if f.startswith("linear_hashtbl::raw::") and f.endswith("::" + nm) and "RawTable<" in F.nice(f)]
+        if not ctx.anchor(rule, "RawTable::" + nm, len(fs) == 1):
+            continue
+        mm = F.mir[fs[0]]
+        BB = cfg.Body(mm)
+        steps = []
+        defs = {}
+        for i in sorted(BB.reach):
+            for s in mm["blocks"][i]["s"]:
+                if isinstance(s.get("lhs"), int):
+                    defs.setdefault(s["lhs"], []).append(s.get("rv") or {})
+        for i in sorted(BB.reach):
+            if mm["blocks"][i]["c"]:
+                continue
+            for s in mm["blocks"][i]["s"]:
+                rv = s.get("rv") or {}
+                if rv.get("k") == "bin" and str(rv.get("o", "")).startswith("BitAnd"):
+                    p = cfg.op_place(rv.get("a"))
+                    pl = p if isinstance(p, int) else (p or {}).get("l")
+                    for d in defs.get(pl, []):
+                        if d.get("k") in ("bin", "checked") and str(d.get("o", "")).startswith("Add"):
+                            steps.append(cfg.const_int(d.get("b")))
+                        elif d.get("k") == "field" or d.get("k") == "use":
+                            # (checked add: tuple field .0 of a checked Add)
+                            q = cfg.op_place(d.get("op")) if d.get("k") == "use" else None
+                            ql = q if isinstance(q, int) else (q or {}).get("l")
+                            for d2 in defs.get(ql, []):
+                                if d2.get("k") in ("bin", "checked") and str(d2.get("o", "")).startswith("Add"):
+                                    steps.append(cfg.const_int(d2.get("b")))
+        n += 1
+        ok = bool(steps) and all(x == 1 for x in steps)
+        ctx.ob(rule + ".step", "%s.step:%s" % (rule, nm), ok,
+               "%s (%s): %s" % (nm, F.where(fs[0]), "the probe advances by (index + 1) & mask" if ok else
+                                "the probe index is not advanced by exactly one slot modulo the table size (strides found: %r)" % (steps,)))
+    return n
